@@ -50,7 +50,7 @@ def hash_from_key(prog, fn, op, key_param):
     return True
 
 
-def check(ctx):
+def _check_own(ctx):
     prog = ctx.prog
     R = Roles(prog)
     eff = role_effects(prog, R, STORAGE_ROLES)
@@ -265,3 +265,13 @@ def _returns_none(ctx, prog, fn, region, m):
             vals.append(all(o.kind == "agg" and o.data.get("variant") == "None" for o in os_) and bool(os_))
     ctx.check(vals == [True], "op-wiring", m + ":not-found:returns-none",
               "%s does not return Ok(None) on the not-found arm" % m, where=where(fn))
+
+
+def check(ctx):
+    _check_own(ctx)
+    from .engine import import_rules
+    # storage-layer integrity rules that the map semantics depend on (corruption of a record, chain or free list changes what get returns)
+    import_rules(ctx, "c05", {"insert-links", "overwrite-links", "delete-links", "bucket-index", "field-position", "count-step", "count-arm", "count-writers"})
+    import_rules(ctx, "c06", {"free-slot-field-position", "no-lost-link-update", "large-pop-conservation", "large-pop", "push-pop-inverse", "alloc", "writer-arms"})
+    import_rules(ctx, "c08", {"relink", "abort"})
+    import_rules(ctx, "c09", {"sizer-covers-writer", "slot-honoured"})
